@@ -1,7 +1,7 @@
 (** Property C01 — every live event is delivered exactly once, in time order
     with FIFO ties.  Statements over ALL scripts (programs), pre-run schedules,
     end_time choices and fuel; closed by [exact]; nothing else in this file. *)
-From HS Require Import Base.Prelude Base.PyLib Engine.Engine Engine.Script Engine.EngineProofs Engine.ScriptProofs Gen.EventGen C01.GenTie C01.HeapTie.
+From HS Require Import Base.Prelude Base.PyLib Engine.Engine Engine.Script Engine.EngineProofs Engine.ScriptProofs Gen.EventGen C01.GenTie C01.HeapTie Gen.TemporalGen C01.TimeTie.
 From Coq Require Import Sorting.Sorted Permutation.
 Local Open Scope Z_scope.
 
@@ -157,3 +157,40 @@ Example c01_code_event_heap_example :
     [HPush (mkEvent 5 0 false); HPush (mkEvent 3 1 true); HPush (mkEvent 5 2 false); HPush (mkEvent 3 3 false); HPop; HPop; HPop])
   = Some [mkEvent 3 1 true; mkEvent 3 3 false; mkEvent 5 0 false].
 Proof. vm_compute. reflexivity. Qed.
+
+(* ------------------------------------------------------------------ *)
+(** Simulation time of the CODE: Instant / Duration arithmetic and comparisons of core/temporal.py
+    (finite instants; Duration, Instant and whole-second operands) and Clock of core/clock.py,
+    regenerated on every run (Gen/TemporalGen.v), are integer arithmetic / comparisons on nanosecond
+    counts; shifting forth and back is the identity, the order is strict, total and compatible with
+    shifting; the clock returns the instant it was last given.  This is the reading of time used by
+    the engine model ("clock = timestamp at every delivery", "time order") and by the idiom table of
+    every other translation. *)
+Theorem c01_code_time_is_integer_nanoseconds : forall (t u : Instant) (d e : Duration) (k : Z) (c : Clock),
+  (ins (Instant___add___dur t d) = ins t + dns d
+   /\ ins (Instant___add___int t k) = ins t + k * 1000000000
+   /\ dns (Instant___sub___inst t u) = ins t - ins u
+   /\ ins (Instant___sub___dur t d) = ins t - dns d
+   /\ ins (Instant___sub___int t k) = ins t - k * 1000000000)
+  /\ (dns (Duration___add___dur d e) = dns d + dns e
+      /\ dns (Duration___add___int d k) = dns d + k * 1000000000
+      /\ dns (Duration___sub___dur d e) = dns d - dns e
+      /\ dns (Duration___sub___int d k) = dns d - k * 1000000000)
+  /\ (Instant___eq__ t u = (ins t =? ins u) /\ Instant___lt__ t u = (ins t <? ins u) /\ Instant___le__ t u = (ins t <=? ins u)
+      /\ Instant___gt__ t u = (ins u <? ins t) /\ Instant___ge__ t u = (ins u <=? ins t))
+  /\ (Duration___eq__ d e = (dns d =? dns e) /\ Duration___lt__ d e = (dns d <? dns e) /\ Duration___le__ d e = (dns d <=? dns e)
+      /\ Duration___gt__ d e = (dns e <? dns d) /\ Duration___ge__ d e = (dns e <=? dns d))
+  /\ (Instant___sub___dur (Instant___add___dur t d) d = t
+      /\ Instant___add___dur u (Instant___sub___inst t u) = t
+      /\ (Instant___eq__ t u = true <-> t = u)
+      /\ (Instant___lt__ t u = true -> Instant___lt__ u t = false)
+      /\ (Instant___lt__ t u = true \/ Instant___lt__ u t = true \/ t = u)
+      /\ (Instant___lt__ (Instant___add___dur t d) (Instant___add___dur u d) = Instant___lt__ t u)
+      /\ (0 <= dns d -> Instant___le__ t (Instant___add___dur t d) = true))
+  /\ Clock_now (fst (Clock_update c t)) = t.
+Proof.
+  intros t u d e k c.
+  exact (conj (instant_arith t u d k) (conj (duration_arith d e k) (conj (instant_compare t u) (conj (duration_compare d e)
+        (conj (instant_laws t u d) (clock_spec c t)))))).
+Qed.
+Print Assumptions c01_code_time_is_integer_nanoseconds.
